@@ -119,7 +119,14 @@ def gen_pair(rng, idx, quick):
     ttf = ['1m', '3m', '5m', '15m'][(idx // 4) % 4] if idx % 7 else rng.choice(['1m', '3m', '5m', '15m'])
     dt_menu = [[], ['15m'], ['5m', '15m'], ['3m'], ['5m'], []]
     dtfs = [d for d in rng.choice(dt_menu) if d != ttf]
-    mins = [R.TFM[ttf]] + [R.TFM[d] for d in dtfs]
+    # a second symbol that is ONLY a data route (never traded), on a timeframe larger than the trading one: the strategy can
+    # read its candles, so they belong to the observations (and to the horizon clause)
+    dsym = []
+    if idx % 6 == 5:
+        nsym = 1
+        bigger = [t for t in ['3m', '5m', '15m', '30m'] if R.TFM[t] > R.TFM[ttf] and R.TFM[t] % R.TFM[ttf] == 0]
+        dsym = [[R.SYMS[1], rng.choice(bigger)]]
+    mins = [R.TFM[ttf]] + [R.TFM[d] for d in dtfs] + [R.TFM[t] for _, t in dsym]
     L = lcm(mins)
     warm = 60 if rng.random() < 0.5 else 0
     n = L * rng.randint(max(4, 120 // L), max(6, (200 if quick else 360) // L))
@@ -137,7 +144,7 @@ def gen_pair(rng, idx, quick):
            'p_edit': rng.choice([0.0, 0.15, 0.4]), 'p_liquidate': rng.choice([0.0, 0.05]),
            'max_entry_rows': rng.choice([1, 2]), 'max_exit_rows': rng.choice([1, 2]),
            'sl_dist': (2, 6), 'tp_dist': (2, 6), 'spot': typ == 'spot'}
-    base = dict(mode=mode, typ=typ, nsym=nsym, ttf=ttf, dtfs=dtfs, warm=warm, n=n, seed=seed, policy=pol,
+    base = dict(mode=mode, typ=typ, nsym=nsym, ttf=ttf, dtfs=dtfs, dsym=dsym, warm=warm, n=n, seed=seed, policy=pol,
                 fee=rng.choice([0.0, 1 / 1024, 0.0006]), lev=rng.choice([1, 2, 5]),
                 levmode=rng.choice(['cross', 'cross', 'isolated']), cut=cut, tail_seed=rng.randrange(1, 10 ** 6),
                 walk=dict(step=rng.choice([1, 2, 3]), wick=rng.choice([1, 2, 3]), gap_p=rng.choice([0.0, 0.1, 0.3])))
@@ -148,7 +155,7 @@ def chunk_of(item):
     if item['mode'] != 'fast':
         return 1
     g = 0
-    for tf in [item['ttf']] + list(item.get('dtfs', [])):
+    for tf in [item['ttf']] + list(item.get('dtfs', [])) + [t for _, t in item.get('dsym', [])]:
         g = math.gcd(g, R.TFM[tf])
     return g
 
@@ -169,8 +176,8 @@ def judge(ctx, traces, bases, parts):
             bad += 1
             b = bases[tid]
             ctx.violation("%s:%s" % (b['mode'], v),
-                          "pair %d (%s %s %d symbol(s) %s data=%s warm=%d cut=%d): %s" % (
-                              tid, b['mode'], b['typ'], b['nsym'], b['ttf'], b['dtfs'], b['warm'], b['cut'], v),
+                          "pair %d (%s %s %d symbol(s) %s data=%s data-only=%s warm=%d cut=%d): %s" % (
+                              tid, b['mode'], b['typ'], b['nsym'], b['ttf'], b['dtfs'], b.get('dsym'), b['warm'], b['cut'], v),
                           {"base": b})
     return bad
 
@@ -221,7 +228,7 @@ def run(ctx):
             after = sum(1 for e in ra['seq'] if e['k'] == 'exec' and e['t'] > cut)
             tails_differ = [e for e in ra['seq'] if e['t'] > cut] != [e for e in rb['seq'] if e['t'] > cut]
             if before >= 1 and after >= 1 and tails_differ:
-                ctx.nontrivial.add((b['mode'], b['typ'], b['nsym'], b['ttf'], tuple(b['dtfs']), b['warm'], b['seed'], cut))
+                ctx.nontrivial.add((b['mode'], b['typ'], b['nsym'], b['ttf'], tuple(b['dtfs']), str(b['dsym']), b['warm'], b['seed'], cut))
             if len(samples) < 2 and before >= 2 and b['mode'] == ('step' if not samples else 'fast'):
                 samples.append({"config": {k: b[k] for k in ('mode', 'typ', 'nsym', 'ttf', 'dtfs', 'warm', 'n', 'cut', 'seed',
                                                               'tail_seed', 'fee')},
@@ -232,7 +239,7 @@ def run(ctx):
         total_bad += judge(ctx, traces, bymap, parts=16)
         ctx.log("T: %d pairs judged, %d rejected" % (tid, total_bad))
     ctx.evaluations = n_pairs
-    cfgs = {(b['mode'], b['typ'], b['nsym'], b['ttf'], tuple(b['dtfs']), b['warm'] > 0) for b in bases}
+    cfgs = {(b['mode'], b['typ'], b['nsym'], b['ttf'], tuple(b['dtfs']), str(b['dsym']), b['warm'] > 0) for b in bases}
     ctx.coverage.update({
         "traces_validated_against_impl": n_pairs, "real_backtests_run": 2 * n_pairs, "observations_recorded": n_obs,
         "configurations_covered": len(cfgs), "rejected_pairs": total_bad, "samples": samples,
